@@ -33,7 +33,7 @@ UNIQ = 'xdoctest.doctest_example.DocTest.unique_callname'
 
 
 def run(ctx):
-    for fn in (r1_one_function_per_example, r2_identity, r3_one_entry_per_part, r4_dropped_lines, r5_want_comments, r6_indent):
+    for fn in (r1_one_function_per_example, r2_identity, r3_one_entry_per_part, r4_dropped_lines, r5_want_comments, r6_indent, r7_prefix_free_text_is_exec_lines):
         ctx.rep.rule(fn, ctx)
 
 
@@ -434,12 +434,50 @@ def r6_indent(ctx):
     rep.ob('C19.R6', ctx.loc(f, f.node), 'default prefix is whitespace', okd, repr(const_str(dflt)), nontrivial=False, anchor=INDENT)
 
 
+def r7_prefix_free_text_is_exec_lines(ctx):
+    """TABLE-AGREE between the writer in the dump (it edits part.exec_lines: star imports removed) and the reader format_part(prefix=False):
+    the prefix-free text must be rendered from the executable lines (self.source / self.exec_lines) on every path, otherwise what the dump
+    removed comes back (and hand-cut prompts need not be four characters wide)"""
+    rep = ctx.rep
+    f = ctx.func('xdoctest.doctest_part.DoctestPart.format_part')
+    g = ctx.cfg(f)
+    recv = f.node.args.args[0].arg
+    params = [a.arg for a in f.node.args.args + f.node.args.kwonlyargs]
+    need('prefix' in params, 'C19.R7: format_part has no prefix option')
+    fs = ctx.func('xdoctest.doctest_part.DoctestPart.source')
+    src_reads_exec = any(isinstance(x, ast.Attribute) and x.attr == 'exec_lines' and is_name(x.value, fs.node.args.args[0].arg) for x in ast.walk(fs.node))
+    rep.ob('C19.R7', ctx.loc(fs, fs.node), 'DoctestPart.source joins exec_lines', src_reads_exec,
+           'source is derived from exec_lines' if src_reads_exec else 'DoctestPart.source is no longer derived from exec_lines', nontrivial=False, anchor=fs.qualname)
+
+    def reads_exec(n):
+        if n.kind not in ('stmt', 'test') or not isinstance(n.ast, ast.AST):
+            return False
+        return any(isinstance(x, ast.Attribute) and x.attr in ('source', 'exec_lines') and is_name(x.value, recv) and isinstance(x.ctx, ast.Load) for x in ast.walk(n.ast))
+    readers = [n for n in g.nodes if reads_exec(n)]
+    rep.floor('C19.R7', 'reads of the executable lines in format_part', len(readers), 1)
+
+    def ef(a, b, kind, tok):
+        if kind != 'n':
+            return False
+        if b.kind == 'branch' and b.attrs['test'].kind == 'test' and b.attrs['polarity'] in (True, False):
+            t = graph._env_truth(b.attrs['test'].ast, {'prefix': False})
+            if t is not None and t != b.attrs['polarity']:
+                return False
+        return True
+    wit = graph.must_pass([g.entry], lambda x: x is g.exit, through=readers, efilter=ef)
+    rep.ob('C19.R7', ctx.loc(f, f.node), 'prefix=False renders the executable lines', wit is None,
+           'with prefix=False every path to the return reads self.source / self.exec_lines' if wit is None else
+           'with prefix=False there is a path that never reads the executable lines: the text is taken from somewhere else (the prompted original lines), so the star imports '
+           'the dump removed from exec_lines re-appear in the generated function', witness=None if wit is None else graph.fmt_path(wit, f.module.relpath), anchor=f.qualname)
+
+
 # ---------------------------------------------------------------------------
 from ..selftest import fire, silent      # noqa: E402
 
 RN = 'xdoctest/runner.py'
 US = 'xdoctest/utils/util_str.py'
 VARIANTS = [
+    fire('prefix-free-text-cut-from-prompted-lines', 'C19.R7', ('xdoctest/doctest_part.py', "        else:\n            src_text = self.source\n", "        else:\n            src_text = '\\n'.join(ln[4:] for ln in self.orig_lines) if self.orig_lines is not None else self.source\n")),
     fire('skip-examples-with-directive', 'C19.R1', (RN, "        # if '+SKIP' in body:\n        #     continue\n", "        if '+SKIP' in body:\n            continue\n")),
     fire('body-not-indented', 'C19.R1', (RN, "        func_text = 'def {}():\\n'.format(func_name) + utils.indent(body)\n", "        func_text = 'def {}():\\n'.format(func_name) + body\n")),
     fire('name-without-index', 'C19.R2', ('re', RN, r"(func_name = 'test_' \+ example\.modname\.replace\('\.', '_'\) \+ '_' \+ example\.callname\.replace\('\.', '_'\))[^\n]*\n", r"\1\n")),
